@@ -16,11 +16,12 @@
             key usage), ca (--cert-authority), serial, copy, pss
    input    what the submitted request / certificate contains: alternative names, basicConstraints (absent / CA /
             not CA), keyUsage, extKeyUsage, an extension relic does not know (absent / non-critical / critical), a
-            subjectKeyIdentifier of its own choosing, a valid or broken signature, PEM / DER / garbage
+            subjectKeyIdentifier of its own choosing, a signature that is valid, broken, or made out to be of an
+            algorithm the library refuses to evaluate (md5WithRSA over somebody else's key), PEM / DER / garbage
    issuer   key type; whether the issuer certificate carries a subjectKeyIdentifier *)
 EXTENDS Integers, Sequences, FiniteSets, TLC
 
-CONSTANTS Variant   \* "code" | "CrossDropsCA" | "CopyAlways" | "SkipPop" | "KeepRequestedSki" | "CsrCaWithoutCopy" | "FlagsIgnoredOnCopy"
+CONSTANTS Variant   \* "code" | "CrossDropsCA" | "CopyAlways" | "SkipPop" | "WeakAlgTolerated" | "KeepRequestedSki" | "CsrCaWithoutCopy" | "FlagsIgnoredOnCopy"
 
 Modes == {"request", "selfsign", "sign", "cross"}
 KuArgs == {"none", "serverauth", "codesigning", "keycertsign", "bogus"}
@@ -41,10 +42,10 @@ EkuOfArg(a) == CASE a = "serverauth" -> "serverAuth" [] a = "codesigning" -> "co
 SigAlg(k, pss) == CASE k = "rsa" -> (IF pss THEN "SHA256-RSAPSS" ELSE "SHA256-RSA") [] k = "p256" -> "ECDSA-SHA256" [] OTHER -> "ECDSA-SHA384"
 
 PlainInput == [sanDns |-> FALSE, sanEmail |-> FALSE, bc |-> "absent", ku |-> FALSE, eku |-> FALSE,
-               unknown |-> "absent", ski |-> FALSE, sigok |-> TRUE, form |-> "pem", aki |-> FALSE]
+               unknown |-> "absent", ski |-> FALSE, sig |-> "ok", form |-> "pem", aki |-> FALSE]
 AllArgs == [cn : BOOLEAN, dns : BOOLEAN, ku : KuArgs, ca : BOOLEAN, serial : Serials, copy : BOOLEAN, pss : BOOLEAN]
 AllInputs == [sanDns : BOOLEAN, sanEmail : BOOLEAN, bc : Bcs, ku : BOOLEAN, eku : BOOLEAN, unknown : Unknowns, ski : BOOLEAN,
-              sigok : BOOLEAN, form : Forms, aki : BOOLEAN]
+              sig : {"ok", "broken", "weakalg"}, form : Forms, aki : BOOLEAN]
 
 \* the flag --copy-extensions exists for `sign` only; request and selfsign need --commonName
 ArgsFor(m) == {a \in AllArgs :
@@ -57,7 +58,8 @@ ArgsFor(m) == {a \in AllArgs :
 InputsFor(m, a) ==
   IF m \in {"request", "selfsign"} THEN {PlainInput}
   ELSE {i \in AllInputs :
-          /\ (m = "cross" => i.sigok) /\ (m # "cross" => ~i.aki)
+          /\ (m = "cross" => i.sig = "ok") /\ (m # "cross" => ~i.aki)
+          /\ (i.sig = "weakalg" => (i.form = "pem" /\ i.unknown = "absent" /\ ~i.ski /\ ~i.sanEmail))
           /\ (a.pss => i.form = "pem")
           /\ (a.serial # "none" => (i.form = "pem" /\ i.unknown = "absent" /\ ~i.ski))
           /\ (i.form # "pem" => (a.ku = "none" /\ ~a.dns /\ i.unknown = "absent" /\ ~i.ski /\ ~i.sanEmail))}
@@ -111,7 +113,7 @@ Issue ==
   /\ pc = "start" /\ pc' = "done"
   /\ out' = IF mode = "request" THEN Request
             ELSE IF mode \in {"sign", "cross"} /\ input.form = "garbage" THEN NoCert
-            ELSE IF mode = "sign" /\ ~input.sigok /\ Variant # "SkipPop" THEN NoCert
+            ELSE IF mode = "sign" /\ input.sig # "ok" /\ Variant # "SkipPop" /\ ~(Variant = "WeakAlgTolerated" /\ input.sig = "weakalg") THEN NoCert
             ELSE IF args.serial = "bogus" \/ args.ku = "bogus" THEN NoCert
             ELSE Cert
   /\ UNCHANGED <<mode, args, input, issuer>>
@@ -125,7 +127,7 @@ Issued == Done /\ out.kind = "cert"
 TypeOK == pc \in {"start", "done"} /\ out.kind \in {"error", "cert", "csr"}
 
 \* no certificate for a key whose holder did not make the request
-ProofOfPossession == (Done /\ mode = "sign" /\ ~input.sigok) => out.kind = "error"
+ProofOfPossession == (Done /\ mode = "sign" /\ input.sig # "ok") => out.kind = "error"
 \* bad flags and unreadable input never yield a certificate
 BadInputRefused == (Done /\ (args.serial = "bogus" \/ args.ku = "bogus" \/ (mode \in {"sign", "cross"} /\ input.form = "garbage"))) => out.kind = "error"
 \* the certificate is for the requester's key, and names it by the identifier computed from that key
